@@ -178,6 +178,10 @@ class AlgebraProfile(StoreProfile):
                     host[j - 1] = "*"      # the field that follows it in the file name (state) as a wildcard
             else:
                 alts = [segs[j]] + rng.sample(vals, rng.randint(1, min(2, len(vals))))
+            if rng.random() < 0.06:
+                # overlapping alternatives: a '*' next to literals (the union is the '*' answer, each result once)
+                alts = alts[:2] + ["*"]
+                run.probes["overlapping_alternatives"] += 1
             rng.shuffle(alts)
             h = list(host)
             h[j] = ",".join(alts)
